@@ -19,6 +19,8 @@ import (
 	"testing"
 
 	"github.com/prometheus/prometheus/internal/verif/vx"
+	"github.com/prometheus/prometheus/model/labels"
+	"github.com/prometheus/prometheus/tsdb/record"
 	"github.com/prometheus/prometheus/tsdb/wlog"
 )
 
@@ -34,6 +36,67 @@ func c23Contents(x *dbx, dir string) (string, map[string][]qSample, error) {
 		return "", nil, err
 	}
 	return c53Render(got), got, nil
+}
+
+// c23OnlyWBLSamplesOfRecreatedSeriesMissing: the snapshot restart lacks samples the WAL restart has,
+// nothing else differs, every missing sample is stored out-of-order according to the model, and the
+// WAL of the directory holds more than one series record (different references) for its label set.
+func c23OnlyWBLSamplesOfRecreatedSeriesMissing(x *dbx, dir string, withSnap, noSnap map[string][]qSample) bool {
+	recs := map[string]map[uint64]bool{}
+	_, last, err := wlog.Segments(filepath.Join(dir, "wal"))
+	if err != nil {
+		return false
+	}
+	first, _, _ := wlog.Segments(filepath.Join(dir, "wal"))
+	sr, err := wlog.NewSegmentsRangeReader(wlog.SegmentRange{Dir: filepath.Join(dir, "wal"), First: first, Last: last})
+	if err != nil {
+		return false
+	}
+	defer sr.Close()
+	rd := wlog.NewReader(sr)
+	dec := record.NewDecoder(labels.NewSymbolTable(), nil)
+	for rd.Next() {
+		if dec.Type(rd.Record()) != record.Series {
+			continue
+		}
+		ss, err := dec.Series(rd.Record(), nil)
+		if err != nil {
+			return false
+		}
+		for _, s := range ss {
+			k := seriesKeyOf(s.Labels)
+			if recs[k] == nil {
+				recs[k] = map[uint64]bool{}
+			}
+			recs[k][uint64(s.Ref)] = true
+		}
+	}
+	missing := 0
+	for sk, want := range noSnap {
+		have := map[int64]string{}
+		for _, smp := range withSnap[sk] {
+			have[smp.t] = smp.val
+		}
+		for _, smp := range want {
+			if v, ok := have[smp.t]; ok {
+				if v != smp.val {
+					return false
+				}
+				continue
+			}
+			ms := x.m.series[sk]
+			if ms == nil || !ms.ooo[smp.t] || len(recs[sk]) < 2 {
+				return false
+			}
+			missing++
+		}
+	}
+	for sk, got := range withSnap {
+		if len(got) > len(noSnap[sk]) {
+			return false
+		}
+	}
+	return missing > 0
 }
 
 func c23SnapshotDirs(dir string) []string {
@@ -84,7 +147,7 @@ func c23Check(x *dbx) *vx.Fail {
 	if f != nil {
 		return f
 	}
-	noSnap, _, f := variant("without-snapshot", func(d string) {
+	noSnap, noSnapGot, f := variant("without-snapshot", func(d string) {
 		for _, s := range c23SnapshotDirs(d) {
 			os.RemoveAll(s)
 		}
@@ -93,6 +156,13 @@ func c23Check(x *dbx) *vx.Fail {
 		return f
 	}
 	if withSnap != noSnap {
+		if c23OnlyWBLSamplesOfRecreatedSeriesMissing(x, base, gotSnap, noSnapGot) {
+			// Known-finding class: the series was garbage-collected and created again (two series
+			// records, two references, in the WAL) while the WBL still addresses it by a reference that
+			// only the WAL replay maps onto the live series; a snapshot restart skips those series
+			// records and drops the WBL samples as unknown.
+			return vx.Failf("snapshot-restart-drops-wbl-samples-of-recreated-series", "after %v (restart from the WAL, clean shutdown with snapshot, restart):\n with snapshot   : %s\n without snapshot: %s", x.hist, withSnap, noSnap)
+		}
 		return vx.Failf("snapshot-restart-differs-from-wal-restart/"+op, "after %v:\n with snapshot   : %s\n without snapshot: %s", x.hist, withSnap, noSnap)
 	}
 	if f := x.compareRange(gotSnap, math.MinInt64, math.MaxInt64, false, "snapshot-restart"); f != nil {
